@@ -21,6 +21,8 @@ CIDS = {
     "valid": "D,Format,Delimited\nD,Line delimiter,LF\nF,id,,,,Integer,0...99\nF,name,,,1...5\nC,unique id,IsUnique,id\n",
     "rejected": "D,Format,Delimited\nF,id,,,,Integer,9...0\nF,name\n",
     "malformed": 'D,Format,Delimited\nF,id,,,,Integer,0...99\nF,"name\n',
+    "ods": "D,Format,ODS\nF,id,,,,Integer,0...99\nF,name,,,1...5\nC,unique id,IsUnique,id\n",
+    "excel": "D,Format,Excel\nF,id,,,,Integer,0...99\nF,name,,,1...5\nC,unique id,IsUnique,id\n",
 }
 FILES = {
     "accepted": "1,ann\n2,bob\n3,cy\n",
@@ -44,28 +46,40 @@ def folder():
         for name, text in FILES.items():
             with open(os.path.join(base, name + ".csv"), "w", newline="", encoding="cp1252") as stream:
                 stream.write(text)
+            table = [line.split(",") for line in text.splitlines()]
+            from mc.models import odf
+            import xlsxwriter
+
+            odf.write_ods(os.path.join(base, name + ".ods"), [table], {})
+            workbook = xlsxwriter.Workbook(os.path.join(base, name + ".xlsx"))
+            sheet = workbook.add_worksheet()
+            for y, row in enumerate(table):
+                for x, cell in enumerate(row):
+                    sheet.write_string(y, x, cell)
+            workbook.close()
         _FOLDER[pid] = base
     return _FOLDER[pid]
 
 
-def path_of(kind):
+def path_of(kind, cid="valid"):
     base = folder()
+    suffix = {"ods": ".ods", "excel": ".xlsx"}.get(cid, ".csv")
     if kind == "missing":
-        return os.path.join(base, "no_such_file.csv")
+        return os.path.join(base, "no_such_file" + suffix)
     if kind == "directory":
         return os.path.join(base, "directory")
-    return os.path.join(base, kind + ".csv")
+    return os.path.join(base, kind + suffix)
 
 
-def api_rejects(kind, until):
+def api_rejects(kind, until, cid_kind="valid"):
     """Differential oracle: does the programmatic API reject the file on a fresh CID?"""
     import cutplace
 
     m = harness.modules()
-    cid = cutplace.Cid(os.path.join(folder(), "cid_valid.csv"))
+    cid = cutplace.Cid(os.path.join(folder(), "cid_%s.csv" % cid_kind))
     limit = None if until in (None, -1) else until
     try:
-        for _ in cutplace.rows(cid, path_of(kind), validate_until=limit):
+        for _ in cutplace.rows(cid, path_of(kind, cid_kind), validate_until=limit):
             pass
         return False
     except m["errors"].DataError:
@@ -81,7 +95,7 @@ def expected_code(cid, kinds, until):
     for kind in kinds:
         if kind in ("missing", "directory"):
             return 3
-        if api_rejects(kind, until):
+        if api_rejects(kind, until, cid):
             rejected = True
     return 1 if rejected else 0
 
@@ -104,7 +118,7 @@ def arguments_for(case):
     if case["until"] is not None:
         arguments += ["--until", str(case["until"])]
     cid_path = os.path.join(folder(), "cid_%s.csv" % case["cid"]) if case["cid"] != "missing" else os.path.join(folder(), "no_such_cid.csv")
-    return arguments + [cid_path] + [path_of(kind) for kind in case["files"]]
+    return arguments + [cid_path] + [path_of(kind, case["cid"]) for kind in case["files"]]
 
 
 def judge(case, part):
@@ -161,6 +175,10 @@ def all_cases():
             for until in UNTILS:
                 if cid != "valid" and (until not in (None, 2) or len(files) > 2):
                     continue
+                cases.append({"cid": cid, "files": files, "until": until})
+    for cid in ("ods", "excel"):
+        for files in [list(p) for n in range(0, 3) for p in itertools.product(KINDS, repeat=n)]:
+            for until in (None, 0, 2):
                 cases.append({"cid": cid, "files": files, "until": until})
     faults = [[], ["--bogus"], ["--until", "-2", "cid.csv"], ["--until", "x", "cid.csv"], ["--until"], ["--log", "loud", "cid.csv"], ["--until", "1.5", "cid.csv"], ["-x", "y"]]
     for argv in faults:
